@@ -193,6 +193,10 @@ Theorem C05_shape_depth_bound : forall d s, infer_text d = Ok s -> sdepth s <= j
 Proof. exact infer_text_depth. Qed.
 Print Assumptions C05_shape_depth_bound.
 
+Theorem C05_shape_depth_bound_value : forall d s, nodup_keys d = true -> infer_value d = Ok s -> sdepth s <= jdepth d.
+Proof. exact infer_value_depth_nodup. Qed.
+Print Assumptions C05_shape_depth_bound_value.
+
 Example C05_shape_depth_tight :
   let d := JArr [JObj [([97%N], JArr [JNum; JStr])]; JObj [([98%N], JNull)]] in
   exists s, infer_text d = Ok s /\ sdepth s = jdepth d.
